@@ -360,6 +360,28 @@ impl ClusterSys {
         }
     }
 
+    /// Delivers everything in flight one message per link and round (so that, e.g., every node has
+    /// everybody's votes before it sees anybody's certificates).
+    fn deliver_all_messages_round_robin(&self, w: &mut ClusterWorld) {
+        let h = self.h();
+        loop {
+            let mut moved = false;
+            for i in 0..h {
+                for j in 0..h {
+                    if w.next[i][j] < w.emitted[j].len() {
+                        let m = w.emitted[j][w.next[i][j]].clone();
+                        w.next[i][j] += 1;
+                        self.feed(w, i, &m);
+                        moved = true;
+                    }
+                }
+            }
+            if !moved {
+                return;
+            }
+        }
+    }
+
     /// First slot of the window after the last window of the alphabet.
     pub fn next_window_start(&self) -> u64 {
         self.alpha.windows.iter().max().copied().unwrap_or(0) + alpenglow::types::SLOTS_PER_WINDOW
@@ -371,6 +393,11 @@ impl ClusterSys {
     /// in flight is delivered after each block, and no timeout of the window fires.
     /// Returns the first slot of the window and the parent, or None if the stage does not apply.
     pub fn correct_leader_window(&self, w: &mut ClusterWorld, leader: usize, highest: bool) -> Option<(u64, BlockId)> {
+        self.correct_leader_window_with(w, leader, highest, false)
+    }
+
+    /// `round_robin`: messages are delivered one per link and round instead of link by link.
+    pub fn correct_leader_window_with(&self, w: &mut ClusterWorld, leader: usize, highest: bool, round_robin: bool) -> Option<(u64, BlockId)> {
         verif_capture_timeouts(true);
         let f = self.next_window_start();
         if self.alpha.blocks.iter().any(|(b, _)| b.slot >= f) {
@@ -401,7 +428,11 @@ impl ClusterSys {
                 }
                 self.settle(w, i);
             }
-            self.deliver_all_messages(w);
+            if round_robin {
+                self.deliver_all_messages_round_robin(w);
+            } else {
+                self.deliver_all_messages(w);
+            }
             prev = blk_id(b);
         }
         Some((f, parent))
@@ -854,6 +885,29 @@ impl LiveSys {
                 );
                 return;
             }
+            // with at least 80 % of the stake correct and responsive (the real nodes of the system) each
+            // block is finalized in one round: the node holds a fast-finalization certificate for it
+            let real: u64 = self.inner.nodes.iter().map(|v| self.inner.epoch.stakes[*v]).sum();
+            let total: u64 = self.inner.epoch.stakes.iter().sum();
+            if real * 5 >= total * 4 {
+                // certificates a node creates or receives are re-broadcast by it (the pool itself may
+                // have pruned the slot already)
+                let ff: BTreeSet<u64> = w.emitted[n]
+                    .iter()
+                    .filter_map(|m| match m {
+                        ConsensusMessage::Cert(c @ alpenglow::consensus::Cert::FastFinal(_)) => Some(c.slot().inner()),
+                        _ => None,
+                    })
+                    .chain(pool.verif_certs().iter().filter(|c| matches!(c, alpenglow::consensus::Cert::FastFinal(_))).map(|c| c.slot().inner()))
+                    .collect();
+                if let Some(s) = (f..=last).find(|s| !ff.contains(s)) {
+                    out.push(
+                        "C02:no-fast-finalization-with-80-percent-responsive".to_string(),
+                        format!("after stabilisation the real nodes ({real} of {total} stake) all voted for the correct leader's blocks of slots {f}..={last}, but node v{} neither holds nor ever broadcast a fast-finalization certificate for slot {s}; its votes in the window: {votes:?}", self.inner.nodes[n]),
+                    );
+                    return;
+                }
+            }
             if fin < last {
                 out.push(
                     "C02:correct-leader-window-not-finalized-after-stabilisation".to_string(),
@@ -1008,7 +1062,7 @@ impl Sys for LiveSys {
                             continue;
                         }
                         copy.msg_cap = 700;
-                        let r = std::panic::catch_unwind(std::panic::AssertUnwindSafe(|| self.inner.correct_leader_window(&mut copy, leader, !timeouts_first)));
+                        let r = std::panic::catch_unwind(std::panic::AssertUnwindSafe(|| self.inner.correct_leader_window_with(&mut copy, leader, !timeouts_first, timeouts_first)));
                         match r {
                             Ok(Some((f, parent))) => {
                                 self.windows_run.fetch_add(1, std::sync::atomic::Ordering::Relaxed);
